@@ -1,6 +1,8 @@
 """C01: shape of the command processor's write pipeline (pkg/processors/command) the model mirrors.
 One value: does cmdProc.putPLog hand the error of PutPlog to the pipeline (`return err`) or swallow
-it (`return nil`, finding F11).  Everything else is anchors only: a change of shape is a hard error."""
+it (`return nil`, finding F11, repaired in ee5a67b65); and: does the flush loop of the sync actualizer
+(syncActualizerFactory, step "IntentsApplier") stop at the first failing ApplyIntents.  Everything else is
+anchors only: a change of shape is a hard error."""
 import re
 
 
@@ -40,4 +42,33 @@ def collect(h):
     if min(i1, i2, i3, i4) < 0 or not (i1 < i2 and i3 < i4):
         raise h.Missing(f"{rel2}: pipeline order putPLog -> store(applyRecords -> fork) changed")
     h.find(rel2, r"if cmd\.appPartitionRestartScheduled \{[^}]*delete\(cmdProc\.appsPartitions,", "partition drop after a failed write", flags=re.S)
-    return [("c01_putplog_returns_err", "bool", "true" if returns_err else "false", rel + " cmdProc.putPLog")]
+    # sync actualizer: the projectors' intents are flushed one state after the other; does the loop
+    # stop at the first failing ApplyIntents?
+    rel3 = "pkg/processors/actualizers/impl.go"
+    flush = h.func_body(rel3, r'pipeline\.WireFunc\("IntentsApplier",\s*func\([^)]*\)\s*\(err error\)\s*\{', "IntentsApplier step of syncActualizerFactory")
+    m = re.search(r"for\s+_,\s*st\s*:=\s*range\s+ss\s*\{", flush)
+    if not m:
+        raise h.Missing(f"{rel3}: IntentsApplier no longer loops over the projector states ss")
+    depth, j = 0, None
+    for i in range(m.end() - 1, len(flush)):
+        if flush[i] == "{":
+            depth += 1
+        elif flush[i] == "}":
+            depth -= 1
+            if depth == 0:
+                j = i
+                break
+    if j is None:
+        raise h.Missing(f"{rel3}: unbalanced braces in the IntentsApplier loop")
+    loop = flush[m.end():j]
+    if not re.search(r"st\.ApplyIntents\(\)", loop):
+        raise h.Missing(f"{rel3}: the IntentsApplier loop no longer calls st.ApplyIntents()")
+    if re.search(r"err\s*!=\s*nil\s*\{\s*return\s+err\s*\}", loop):
+        stops = True
+    elif not re.search(r"\b(return|break|goto|continue)\b", loop) and re.search(r"\berr\s*=\s*st\.ApplyIntents\(\)", loop):
+        stops = False      # every state is flushed, err is overwritten: the last state's error is returned
+    else:
+        raise h.Missing(f"{rel3}: cannot decide whether the IntentsApplier loop stops at the first error")
+    h.find(rel3, r"ss\s*=\s*append\(ss,\s*s\)", "one state per sync projector")
+    return [("c01_putplog_returns_err", "bool", "true" if returns_err else "false", rel + " cmdProc.putPLog"),
+            ("c01_sync_flush_stops_at_error", "bool", "true" if stops else "false", rel3 + " syncActualizerFactory IntentsApplier")]
